@@ -499,6 +499,21 @@ func runEcdsa(r *run, mult int) {
 		}
 		r.flush()
 	}
+	kxy := func(x, y *big.Int) (*k256.Point, error) {
+		return k256.NewCurve().FromUncompressed(append(append([]byte{4}, x.FillBytes(make([]byte, 32))...), y.FillBytes(make([]byte, 32))...))
+	}
+	pxy := func(x, y *big.Int) (*p256.Point, error) {
+		return p256.NewCurve().FromUncompressed(append(append([]byte{4}, x.FillBytes(make([]byte, 32))...), y.FillBytes(make([]byte, 32))...))
+	}
+	nw := 2 * mult
+	if !r.quick {
+		nw = 8 * mult
+	}
+	for i := 0; i < nw; i++ {
+		ecdsaWire(r, ke, kxy, hashes[i%nh], i)
+		ecdsaWire(r, pe, pxy, hashes[(i+1)%nh], i)
+	}
+	r.flush()
 }
 
 func replayEcdsa(r *run, f []string) {
